@@ -83,6 +83,11 @@ func (this *ByteTransformSequence) Forward(src, dst []byte) (uint, uint, error) 
 	in, out := src, dst
 	swaps := 0
 
+	// The decompressor undoes the stages in buffers of the block size plus a
+	// limited padding (1/16th of the block, at least 512 bytes): a stage that
+	// expands the data beyond that could not be reverted and is skipped.
+	maxLength := blockSize + max(blockSize>>4, 512)
+
 	// Process transforms sequentially
 	for i := range this.transforms {
 		var err error
@@ -97,7 +102,7 @@ func (this *ByteTransformSequence) Forward(src, dst []byte) (uint, uint, error) 
 		}
 
 		// Apply forward transform
-		if _, length, err = this.transforms[i].Forward((in)[0:length], out); err != nil {
+		if _, length, err = this.transforms[i].Forward((in)[0:length], out); err != nil || length > maxLength {
 			// Transform failed. Either it does not apply to this type
 			// of data or a recoverable error occurred => revert
 			length = savedLength
